@@ -318,11 +318,12 @@ def check(ctx):
     if pk is not None and pk[0] == "comp" and pk[1] == "list":
         (tgt, src, conds) = pk[3][0]
         ok = (pk[2] == ("iter", src) and len(conds) == 1
-              and conds[0] == cmp_("not in", ("iter", src), ("a", SELF, "positions_excluded"))
-              and src[0] in ("list", "loop", "n", "carried"))
-        ext = [t for t, _, _ in rb.calls if t[1][0] == "a" and t[1][2] == "extend"]
-        ok = ok and any(t[2] == (("a", SELF, "positions_included"),) for t in ext) \
-            and any(t[2] and t[2][0][0] == "a" and t[2][0][2] == "position_keys" for t in ext)
+              and conds[0] == cmp_("not in", ("iter", src), ("a", SELF, "positions_excluded")))
+        # the filtered list is: every kernel's position keys, extended by positions_included
+        muts = [x for x in subterms(src) if x[0] == "mut" and x[2] == "extend"]
+        ok = ok and any(x[3] == (("a", SELF, "positions_included"),) for x in muts) \
+            and any(x[3] and x[3][0][0] == "a" and x[3][0][2] == "position_keys"
+                    and x[3][0][1] == ("iter", ("a", SELF, "_kernels")) for x in muts)
     ctx.ob("C08.R5", build, "tracked keys = kernel keys + positions_included, minus "
                             "positions_excluded", ok, detail=short(pk or ()),
            stmt="tracked keys " + pretty(pk or ())[:160])
